@@ -371,11 +371,9 @@ func newMetaRules(c *core.Ctx, r *core.Report, rule string) {
 					return false
 				}
 				for _, pc := range core.Calls(par) {
-					if lsf != nil && core.IsCallTo(pc.Common(), lsf) {
-						for _, a := range pc.Common().Args {
-							if core.ClosureOf(a) == g {
-								return true
-							}
+					for i, a := range pc.Common().Args {
+						if core.ClosureOf(a) == g && handsToStoreIfAbsent(c, pc.Common(), i, lsf, 3) {
+							return true
 						}
 					}
 				}
@@ -385,4 +383,49 @@ func newMetaRules(c *core.Ctx, r *core.Report, rule string) {
 		}
 	}
 	r.Floor(rule, "NewMeta call sites", n, 2)
+}
+
+// handsToStoreIfAbsent: argument i of the call is the callback of the store-if-absent primitive lsf - directly, or
+// because the callee hands that parameter on to it unchanged (a store type wrapped around the concurrent map).
+func handsToStoreIfAbsent(c *core.Ctx, com *ssa.CallCommon, i int, lsf *ssa.Function, depth int) bool {
+	if lsf == nil {
+		return false
+	}
+	if core.IsCallTo(com, lsf) {
+		return true
+	}
+	cal := c.ResolvedCallee(com)
+	if cal == nil || depth == 0 || !c.InScope(cal) && (cal.Origin() == nil || !c.InScope(cal.Origin())) {
+		return false
+	}
+	if com.IsInvoke() {
+		i-- // the receiver is not among the arguments of an invoke
+	}
+	if i < 0 || i >= len(cal.Params) {
+		return false
+	}
+	p := cal.Params[i]
+	ok := false
+	for _, rf := range *p.Referrers() {
+		switch x := rf.(type) {
+		case *ssa.DebugRef:
+		case ssa.CallInstruction:
+			handed := false
+			for j, a := range x.Common().Args {
+				if a == ssa.Value(p) {
+					if !handsToStoreIfAbsent(c, x.Common(), j, lsf, depth-1) {
+						return false
+					}
+					handed = true
+				}
+			}
+			if !handed {
+				return false // the callee calls the callback itself
+			}
+			ok = true
+		default:
+			return false
+		}
+	}
+	return ok
 }
